@@ -1079,7 +1079,7 @@ def _check_fuse_script(m: Model, obj, expect: dict, o: Oracle, name: str) -> Non
 
 # ====================================================================== step 2: values
 # share of value cases per area: many distinct layouts -> more cases; XMCD (7 small layouts, seconds per load) -> few
-_AREA_WEIGHT = {"pfr": 6, "ifr": 3, "bca": 2, "fcf": 2, "fcb": 3, "xmcd": 1, "tz": 2, "fuses": 3, "memcfg": 4}
+_AREA_WEIGHT = {"pfr": 8, "ifr": 4, "bca": 3, "fcf": 3, "fcb": 4, "xmcd": 1, "tz": 3, "fuses": 3, "memcfg": 5}
 MODES = ("random", "random", "random", "max", "min", "walk1")
 SPELL = ("mixed", "mixed", "int", "hex", "enum")
 
@@ -1170,8 +1170,11 @@ def run_values(case, o: Oracle) -> None:
         return
     base = None
     if ad.has_binary:
-        with o.spsdk("construct"):
-            base = ad.export(ad.new())
+        bkey = ("default_export", m.dev, m.rev, area, m.sub)
+        if bkey not in _S:
+            with o.spsdk("construct"):
+                _S[bkey] = ad.export(ad.new())
+        base = _S.get(bkey)
         if base is None:
             o.nontrivial(True)
             return
